@@ -6,7 +6,7 @@ import json, os, shutil, subprocess, sys
 ROOT = os.path.dirname(os.path.dirname(os.path.abspath(__file__)))
 ROUND = os.environ.get('ROUND', 'seed')
 OFFSET = int(os.environ.get('OFFSET', '0'))
-WT = '/tmp/vseed_wt'
+WT = os.environ.get('VWT', '/tmp/vseed_wt')
 def sh(cmd, **kw):
     return subprocess.run(cmd, shell=True, capture_output=True, text=True, **kw)
 if not os.path.exists(WT):
